@@ -844,14 +844,55 @@ pub fn locate(tag: &str, d: &[u8], rng: &mut Rng) -> Vec<Field> {
         "sbix" => {
             f(&mut out, "sbix.flags", 2, 2, n);
             f(&mut out, "sbix.numStrikes", 4, 4, n);
-            f(&mut out, "sbix.strikeOffset0", 8, 4, n);
-            if let Some(so) = be32(d, 8) {
-                f(&mut out, "sbix.strike0.ppem", so, 2, n);
-                f(&mut out, "sbix.strike0.glyphOffset0", so + 4, 4, n);
-                f(&mut out, "sbix.strike0.glyphOffset1", so + 8, 4, n);
-                if let Some(g) = be32(d, so + 4) {
-                    f(&mut out, "sbix.glyph0.graphicType", so + g + 4, 4, n);
-                    f(&mut out, "sbix.glyph0.data", so + g + 8, 2, n);
+            let ns = be32(d, 4).unwrap_or(0).clamp(1, 16);
+            let k = pick_index(rng, ns);
+            f(&mut out, "sbix.strikeOffset", 8 + 4 * k, 4, n);
+            if let Some(so) = be32(d, 8 + 4 * k) {
+                f(&mut out, "sbix.strike.ppem", so, 2, n);
+                f(&mut out, "sbix.strike.ppi", so + 2, 2, n);
+                // number of glyphs inferred from the first data offset (offset array + header)
+                let ng = be32(d, so + 4).map(|o| (o.saturating_sub(4) / 4).saturating_sub(1)).unwrap_or(0).min(70000);
+                if ng > 0 {
+                    let g = pick_index(rng, ng);
+                    f(&mut out, "sbix.strike.glyphOffset[g]", so + 4 + 4 * g, 4, n);
+                    f(&mut out, "sbix.strike.glyphOffset[last]", so + 4 + 4 * ng, 4, n);
+                    // glyphs that have data
+                    let with_data: Vec<(usize, usize, usize)> = (0..ng.min(2000))
+                        .filter_map(|g| {
+                            let (a, b) = (be32(d, so + 4 + 4 * g)?, be32(d, so + 8 + 4 * g)?);
+                            if b > a && b - a >= 10 && so + b <= n {
+                                Some((g, so + a, so + b))
+                            } else {
+                                None
+                            }
+                        })
+                        .collect();
+                    if !with_data.is_empty() {
+                        let i = rng.usize_below(with_data.len());
+                        let (g, a, _b) = with_data[i];
+                        f(&mut out, "sbix.glyph.originOffsetX", a, 2, n);
+                        f(&mut out, "sbix.glyph.graphicType", a + 4, 4, n);
+                        f(&mut out, "sbix.glyph.data", a + 8, 2, n);
+                        // `dupe` records: this glyph refers to another glyph's image
+                        let dupe = |target: usize| -> Vec<u8> {
+                            let mut v = vec![0, 0, 0, 0];
+                            v.extend_from_slice(b"dupe");
+                            v.extend_from_slice(&(target as u16).to_be_bytes());
+                            v
+                        };
+                        fw(&mut out, "sbix.glyph.dupe.self", a, dupe(g), n);
+                        if let Some(&(g2, a2, _)) = with_data.get(i + 1) {
+                            // two records that refer to each other (one block write when adjacent)
+                            if a2 >= a + 10 && a2 + 10 <= n && a2 - a <= 65536 {
+                                let mut span = d[a..a2 + 10].to_vec();
+                                span[..10].copy_from_slice(&dupe(g2));
+                                let l = span.len();
+                                span[l - 10..].copy_from_slice(&dupe(g));
+                                fw(&mut out, "sbix.glyph.dupe.cycle", a, span, n);
+                            }
+                            fw(&mut out, "sbix.glyph.dupe.other", a, dupe(g2), n);
+                        }
+                    }
                 }
             }
         }
